@@ -110,8 +110,12 @@ func (defaultSharedInitializeCaller) Call(s *slip.Scope, args slip.List, depth i
 	}
 	for k, sd := range obj.Type.initFormMap() {
 		if _, has := nameMap[k]; !has {
-			// If in the initForms then initform will not be nil.
-			obj.setSlot(s, sd, sd.initform.Eval(s, depth+1), depth)
+			// An initform of nil is a valid form that evaluates to nil.
+			if sd.initform == nil {
+				obj.setSlot(s, sd, nil, depth)
+			} else {
+				obj.setSlot(s, sd, sd.initform.Eval(s, depth+1), depth)
+			}
 		}
 	}
 	return obj
